@@ -129,6 +129,45 @@ theorem writeBack_correct (s : St β) (hlen : s.active.length = s.alpha.length)
 
 end bookkeeping
 
+/-- **`update` keeps the state aligned** (it rewrites `Alpha::upper_bound` of the two touched
+positions from `bounds`, which is aligned). -/
+theorem update_preserves_aligned (e : Env α) (p0 b0 : List α) (y0 : List Bool) (s : St α) (i j : Nat)
+    (hi : i < s.alpha.length) (hj : j < s.alpha.length) (h : Aligned p0 b0 y0 s) :
+    Aligned p0 b0 y0 (update e s i j) :=
+  update_aligned e p0 b0 y0 s i j hi hj h
+
+/-- `exSt` is aligned with the sample-order data `p0 = [-1,-1,-1]`, `b0 = [1,2,1]`, `y0 = [-,+,+]` -/
+example : Aligned (α := ℚ) [-1, -1, -1] [1, 2, 1] [false, true, true] exSt := by
+  refine ⟨⟨rfl, rfl, rfl, rfl, rfl, rfl⟩, ?_⟩
+  intro k hk
+  have : k = 0 ∨ k = 1 ∨ k = 2 := by
+    simp only [exSt, List.length_cons, List.length_nil] at hk; omega
+  rcases this with h | h | h <;> subst h <;> norm_num [exSt, gf, gb, gn]
+
+/-- **the number of support vectors is the number of coefficients above the threshold**, and it
+is the number of rows `solve` selected. -/
+theorem nsupport_counts_nonzero (thr : α) (alpha : List α) :
+    nsupport thr alpha = (supportIdx thr alpha).length := by
+  unfold nsupport supportIdx
+  rw [← filter_range_map alpha (fun a => decide (thr < absS a)), List.length_map]
+
+/-- **`weighted_sum` pairs every selected support vector with its own coefficient**: zipping the
+rows selected by `solve` (kernel values `kf i` for sample `i`) with the coefficients re-filtered by
+`weighted_sum` gives `Σ_{i : |α_i| > thr} K(x_i, x) α_i` — provided both filters see the same
+coefficient vector `alpha` (true for C-classification, one-class and regression; nu-classification
+rescales `alpha` by `1/r` between the two filters, there the index sets must coincide — checked by
+the oracle clause `decision_value`). -/
+theorem weightedSum_pairs (thr : α) (alpha : List α) (kf : Nat → α) :
+    weightedSum thr alpha ((supportIdx thr alpha).map kf) =
+      sumS ((supportIdx thr alpha).map fun i => kf i * gf alpha i) := by
+  unfold weightedSum
+  rw [← filter_range_map alpha (fun a => decide (thr < absS a))]
+  unfold supportIdx
+  rw [List.zipWith_map, List.zipWith_self]
+
+example : supportIdx (1/100 : ℚ) [1/2, 0, -2, 1/1000] = [0, 2] := by
+  norm_num [supportIdx, gf, absS, List.range_succ, List.filter]
+
 /-- the example's `active_set` is a 3-cycle (not an involution): variable values `[0, 1/2, 2]` at
 positions 0,1,2 belong to samples 2,0,1 -/
 example : writeBack exSt = [1/2, 2, 0] := by
